@@ -950,6 +950,12 @@ impl<'env> Executor<'env> {
             state.ctx.reset_closure(old_closure);
             state.ctx.decr_depth(INCLUDE_RECURSION_COST);
             ok!(rv.map_err(|err| {
+                // running out of fuel ends the whole render; it is not an
+                // error of the included template and keeps its own kind.
+                #[cfg(feature = "fuel")]
+                if err.kind() == ErrorKind::OutOfFuel {
+                    return err;
+                }
                 Error::new(
                     ErrorKind::BadInclude,
                     format!("error in \"{}\"", tmpl.name()),
@@ -1019,6 +1025,11 @@ impl<'env> Executor<'env> {
         state.blocks.get_mut(name).unwrap().pop();
 
         ok!(rv.map_err(|err| {
+            // see perform_include: out of fuel is reported as such.
+            #[cfg(feature = "fuel")]
+            if err.kind() == ErrorKind::OutOfFuel {
+                return err;
+            }
             Error::new(ErrorKind::EvalBlock, "error in super block").with_source(err)
         }));
         if capture {
